@@ -36,7 +36,7 @@ def declare(E):
                                    "ghost('taken') == ghost('sync_taken')", "ghost('fed') == ghost('sync_fed')",
                                    "self._buffer == ghost('sync__buffer')"],
                               havoc_fields=["self._buffer", "self._closed", "self._event"],
-                              havoc_ghosts=["fed", "taken", "sync_fed", "sync_taken", "sync__buffer"],
+                              havoc_ghosts=["fed", "taken", "sync_fed", "sync_taken", "sync__buffer", "sync__closed", "sync__event"],
                               vars={"then": "float", "timeout": "opt[float]"})},
                returns="bytes")
     E.contract(B + "empty", on_release={"taken": "ghost('taken') + out"},
